@@ -97,9 +97,12 @@ func runC06(c *Ctx) {
 		return
 	}
 	nRuns := c.N(80, 4600) // ~80 exchanges per run on average
+	lateDone := make(chan struct{})
+	go func() { defer close(lateDone); c06LateReplies(c) }() // 8 s of mostly waiting: overlap with the sweep
 	parallelFor(nRuns, 24, func() bool { return c.ViolationCount() >= 10 }, func(idx int) {
 		c06One(c, idx)
 	})
+	<-lateDone
 	c.Ev.Set("race_reports_logged_not_judged_here", upRaceReports(c))
 }
 
